@@ -137,6 +137,16 @@ func stuckWhere() string {
 
 func call(tr *tracer, sub, what string, limit time.Duration, f func()) { guard(tr, sub, limit, what, f) }
 
+// skip ends a scenario whose SETUP did not come up (free ports taken meanwhile, overloaded machine ...): not an observation
+// about the limits.  props/c17.py tolerates a few of them and fails as machinery error beyond that.
+func skip(e *senv, tr *tracer, sub, why string) {
+	st, le := "", ""
+	if v := e.hub.Get("t1"); v != nil {
+		st, le = v.Status, v.LastErr
+	}
+	tr.emit(ev{"op": "Skip", "sub": sub, "why": why, "status": st, "lasterr": le})
+}
+
 // ---------------------------------------------------------------------------------------------------- scripted peer
 
 type peerEv struct {
@@ -240,7 +250,7 @@ func uploadqRun(tr *tracer, idx int, seed int64) {
 	if !rated {
 		n, nblocks = 300, 320
 	}
-	tr.emit(ev{"op": "Init", "sub": "uploadq", "idx": idx, "cap": capq, "fast": fast, "rated": rated, "n": n})
+	tr.emit(ev{"op": "Init", "sub": "uploadq", "idx": idx, "cap": capq, "fast": fast, "rated": rated, "n": n, "period": 250, "warm": 5})
 	guard(tr, "uploadq", 60*time.Second, "scenario", func() {
 		e := newEnv(false)
 		defer e.close()
@@ -270,6 +280,7 @@ func uploadqRun(tr *tracer, idx int, seed int64) {
 		next := 0
 		if rated && capq > 0 {
 			// warm-up: empty the token bucket (burst = 1 s of rate) with requests that are answered one by one
+			tr.emit(ev{"op": "UQWarm", "t": e.ms()})
 			for ; next < 5; next++ {
 				p.c.Send(blockReq(tor, next))
 				if !p.waitFor(vh.MsgPiece, 5*time.Second) {
@@ -367,8 +378,8 @@ func pipelineRun(tr *tracer, idx int, seed int64) {
 			os.Exit(2)
 		}
 		if !e.hub.Wait("t1", 10*time.Second, func(v *torrent.VerifSnap) bool { return v.Status == "Downloading" && v.Acceptor && v.Port != 0 }) {
-			tr.emit(ev{"op": "Hang", "sub": "pipeline", "what": "torrent does not reach Downloading", "where": stuckWhere()})
-			os.Exit(3)
+			skip(e, tr, "pipeline", "torrent does not reach Downloading")
+			return
 		}
 		p, err := dialPeer(e, "seed", "127.0.0.2", fmt.Sprintf("127.0.0.1:%d", t.Port()), tor, fast, true)
 		if err != nil {
@@ -429,10 +440,19 @@ func pipelineRun(tr *tracer, idx int, seed int64) {
 				p.c.Send(vh.Msg{ID: vh.MsgPiece, Index: m.Index, Begin: m.Begin, Data: pd[m.Begin : m.Begin+m.Length]})
 			}
 		}
+		// the script advances on rain's own view (loop snapshot), not on wall-clock guesses: a slow loop must not make
+		// requests of an earlier round look like requests of the current one
+		seen := func(chokingNow bool) {
+			if !e.hub.Wait("t1", 20*time.Second, func(v *torrent.VerifSnap) bool { return len(v.PeerList) > 0 && v.PeerList[0].PeerChoking == chokingNow }) {
+				fmt.Fprintln(os.Stderr, "pipeline: rain does not handle our choke/unchoke")
+				os.Exit(2)
+			}
+		}
 		unchoke := func() {
 			tr.emit(ev{"op": "PLUnchoke"})
 			choking = false
 			p.c.Send(vh.Msg{ID: vh.MsgUnchoke})
+			seen(false)
 		}
 		choke := func() {
 			tr.emit(ev{"op": "PLChoke"})
@@ -445,6 +465,10 @@ func pipelineRun(tr *tracer, idx int, seed int64) {
 				}
 			}
 			out = nil
+			// what rain sent before it handled the choke must have arrived before we unchoke again (otherwise stale requests
+			// would be counted together with the new ones): wait for the loop snapshot that shows the choke, then for silence
+			seen(true)
+			settle(400 * time.Millisecond)
 		}
 		q := 150 * time.Millisecond
 		settle(q) // interested
@@ -536,8 +560,8 @@ func ramRun(tr *tracer, idx int, seed int64) {
 		for i, t := range ts {
 			id := fmt.Sprint("t", i+1)
 			if !e.hub.Wait(id, 10*time.Second, func(v *torrent.VerifSnap) bool { return v.Status == "Downloading" && v.Acceptor && v.Port != 0 }) {
-				tr.emit(ev{"op": "Hang", "sub": "ram", "what": "torrent does not reach Downloading", "where": stuckWhere()})
-				os.Exit(3)
+				skip(e, tr, "ram", "torrent does not reach Downloading")
+				return
 			}
 			for k := 0; k < 3; k++ {
 				_, err := vh.ConnectSeeder(e.T, fmt.Sprint("s", i, k), fmt.Sprintf("127.0.%d.%d", i+1, k+2), fmt.Sprintf("127.0.0.1:%d", t.Port()), tors[i],
@@ -622,6 +646,7 @@ type wsFarm struct {
 	chunk    int
 	delay    time.Duration
 	quiet    bool // do not log requests (rate / config scenarios)
+	corruptAll bool // every server corrupts (default: server 2 only)
 }
 
 func newFarm(tr *tracer, tor *vh.Torrent, k, capD int) *wsFarm {
@@ -647,19 +672,40 @@ func (f *wsFarm) close() {
 	}
 }
 
+// watch samples the number of requests in flight.  A download that rain has just closed may not have been noticed by
+// its server yet, so a momentary overshoot proves nothing; the longest uninterrupted time above the cap does.
+func (f *wsFarm) watch(stop chan struct{}) (overMs *atomic.Int64, peak *atomic.Int64) {
+	overMs, peak = &atomic.Int64{}, &atomic.Int64{}
+	go func() {
+		var since time.Time
+		for {
+			select {
+			case <-stop:
+				return
+			case <-time.After(10 * time.Millisecond):
+			}
+			c := f.inflight.Load()
+			if c > peak.Load() {
+				peak.Store(c)
+			}
+			if int(c) > f.capD {
+				if since.IsZero() {
+					since = time.Now()
+				}
+				if d := time.Since(since).Milliseconds(); d > overMs.Load() {
+					overMs.Store(d)
+				}
+			} else {
+				since = time.Time{}
+			}
+		}
+	}()
+	return
+}
+
 func (f *wsFarm) serve(si int, rw http.ResponseWriter, r *http.Request) {
 	n := int(f.inflight.Add(1))
 	defer f.inflight.Add(-1)
-	if n > f.capD {
-		// a download that was just closed may not have been noticed by its server yet: report the lowest
-		// concurrency seen during the next 200 ms (a sustained overshoot only)
-		for w := 0; w < 40 && n > f.capD; w++ {
-			time.Sleep(5 * time.Millisecond)
-			if c := int(f.inflight.Load()); c < n {
-				n = c
-			}
-		}
-	}
 	if !f.quiet {
 		f.tr.emit(ev{"op": "WsHttp", "src": si + 1, "inflight": n})
 	}
@@ -696,7 +742,7 @@ func (f *wsFarm) serve(si int, rw http.ResponseWriter, r *http.Request) {
 		return
 	}
 	out := append([]byte(nil), data[lo:hi+1]...)
-	if f.corrupt != nil && si == 1 {
+	if f.corrupt != nil && (si == 1 || f.corruptAll) {
 		base := f.tor.FileStart(fi) + lo
 		for i := range out {
 			if f.corrupt(base + int64(i)) {
@@ -727,11 +773,11 @@ func (f *wsFarm) serve(si int, rw http.ResponseWriter, r *http.Request) {
 var wsK = []int{1, 3, 7, 10, 12, 15}
 var wsCapS = []int{0, 1, 5, 10, 12}
 var wsCapD = []int{0, 1, 2, 4}
-var wsVariant = []string{"plain", "error", "corrupt", "stopstart"}
+var wsVariant = []string{"plain", "error", "corrupt", "stopstart", "slow", "corruptlast"}
 
 func webseedRun(tr *tracer, idx int, seed int64) {
-	// mixed strides give all pairs (k, capS), (capS, capD), (capD, variant) within 30 scenarios
-	k, capS, capD, variant := wsK[idx%6], wsCapS[(idx+idx/6)%5], wsCapD[(idx+idx/5)%4], wsVariant[(idx/2+idx/4)%4]
+	// 30 scenarios give every pair (k, capS); capD and the variant cycle with co-prime strides
+	k, capS, capD, variant := wsK[idx%6], wsCapS[(idx/6)%5], wsCapD[(idx+idx/6)%4], wsVariant[(idx*5+idx/6)%6]
 	tr.emit(ev{"op": "Init", "sub": "webseed", "idx": idx, "k": k, "caps": capS, "capd": capD, "variant": variant})
 	guard(tr, "webseed", 60*time.Second, "scenario", func() {
 		e := newEnv(true)
@@ -742,12 +788,20 @@ func webseedRun(tr *tracer, idx int, seed int64) {
 		defer farm.close()
 		tor := vh.Build(lay, seed, nil, farm.urls)
 		farm.tor = tor
+		stopW := make(chan struct{})
+		overMs, peak := farm.watch(stopW)
 		switch variant {
+		case "slow":
+			farm.delay = 60 * time.Millisecond
 		case "error":
 			farm.failAt[0] = 2
 			if k > 2 {
 				farm.failAt[2] = 1
 			}
+		case "corruptlast": // the piece that ends a web-seed range (and the torrent)
+			bad := tor.Total - 10
+			farm.corrupt = func(abs int64) bool { return abs == bad }
+			farm.corruptAll = true
 		case "corrupt":
 			bad := int64(5*tor.PieceLen + 100)
 			farm.corrupt = func(abs int64) bool { return abs == bad }
@@ -764,8 +818,8 @@ func webseedRun(tr *tracer, idx int, seed int64) {
 			os.Exit(2)
 		}
 		if !e.hub.Wait("t1", 10*time.Second, func(v *torrent.VerifSnap) bool { return v.Status == "Downloading" && v.Acceptor && v.Port != 0 }) {
-			tr.emit(ev{"op": "Hang", "sub": "webseed", "what": "torrent does not reach Downloading", "where": stuckWhere()})
-			os.Exit(3)
+			skip(e, tr, "webseed", "torrent does not reach Downloading")
+			return
 		}
 		// a slow honest peer as well: web-seed ranges get stolen / truncated by peer downloads
 		vh.ConnectSeeder(e.T, "peer", "127.0.0.2", fmt.Sprintf("127.0.0.1:%d", t.Port()), tor, &vh.SeederPolicy{BlockDelay: 4 * time.Millisecond})
@@ -802,7 +856,8 @@ func webseedRun(tr *tracer, idx int, seed int64) {
 			last, first = cur, false
 			tr.emit(ev{"op": "WsSnap", "sources": cur[0], "active": cur[1], "ranges": cur[2]})
 		}
-		tr.emit(ev{"op": "WsEnd", "complete": done})
+		close(stopW)
+		tr.emit(ev{"op": "WsEnd", "complete": done, "overms": overMs.Load(), "peak": peak.Load()})
 		call(tr, "webseed", "Session.Close", 15*time.Second, func() { s.Close() })
 	})
 }
@@ -843,6 +898,7 @@ func rateRun(tr *tracer, idx int, seed int64) {
 		lay := flat("rate", plen, npieces, 0)
 		m := &meter{}
 		slack := 0
+		var reqAt, arrAt []int64
 		t0 := time.Now()
 		switch kind {
 		case "down":
@@ -877,8 +933,13 @@ func rateRun(tr *tracer, idx int, seed int64) {
 			torrent.VerifSetUnchokePeriod(t, time.Hour)
 			nb := tor.NumPieces * (plen / blk)
 			sent, got := 0, 0
+			// A piece cannot have been written before its request was sent and not after it arrived: a window [a, b] certainly
+			// contains the pieces requested at or after a that arrived by b (the reader may lag, so arrival times alone prove nothing).
+			reqAt = make([]int64, nb)
+			arrAt = make([]int64, nb)
 			for got < nb {
-				for sent < nb && sent-got < 8 {
+				for sent < nb && sent-got < 2 {
+					reqAt[sent] = e.ms()
 					p.c.Send(blockReq(tor, sent))
 					sent++
 				}
@@ -888,6 +949,9 @@ func rateRun(tr *tracer, idx int, seed int64) {
 				}
 				if x.m.ID == vh.MsgPiece {
 					m.add(len(x.m.Data))
+					if b := blockNo(tor, x.m); b < nb {
+						arrAt[b] = x.t
+					}
 					got++
 				} else if x.m.ID == vh.MsgReject {
 					got++
@@ -944,7 +1008,11 @@ func rateRun(tr *tracer, idx int, seed int64) {
 		for _, v := range m.b {
 			sum += v
 		}
-		tr.emit(ev{"op": "RateBuckets", "b": m.b, "slack": slack, "bytes": sum, "total": total, "dur": time.Since(t0).Milliseconds()})
+		if reqAt == nil {
+			reqAt, arrAt = []int64{}, []int64{}
+		}
+		tr.emit(ev{"op": "RateBuckets", "b": m.b, "slack": slack, "bytes": sum, "total": total, "dur": time.Since(t0).Milliseconds(),
+			"req": reqAt, "arr": arrAt, "blk": blk})
 	})
 }
 
